@@ -13,7 +13,9 @@ CHECKS = {
  "C01": dict(text=SYS + "Proved (all states): every scheduler operation conserves the test indices and sends exactly what it books (load, worksteal, loadscope family); "
              "the worker runs exactly the assigned, not-withdrawn entries in order (C05). SYSTEM level (Proofs/ExactlyOnce.v, --dist load, every configuration and every schedule without worker failure): "
              "no index is ever started twice on any worker (NoDup over pool ++ wires ++ inboxes ++ queues ++ popped entries), whatever starts was popped from its worker's queue and belongs to the agreed collection. "
-             "Partial: the system-level theorem covers load; worksteal/loadscope have the per-operation conservation laws; completeness at session end is the conjunction of worker completeness at the marker and tests_finished, not one theorem.",
+             "For load without worker failure also (Coupling.v, Completeness.v): the controller's book of every node equals, in order, what the worker side still owes; the controller never raises; "
+             "tokens are conserved (a permutation of the collected positions in every state); when the session ends as finished the started tests are a PERMUTATION of the collection: every test started exactly once. "
+             "worksteal: system-level at-most-once incl. withdrawals in flight (ExactlyOnceSteal.v). Partial: exactly-once at the end is proved for load; worksteal has at-most-once; the loadscope family has the per-operation conservation laws.",
              design="5/C01", technique=TECH),
  "C02": dict(text=SYS + "Proved (all states): each scheduling decision leaves the node with >=2 tests, a shutdown, an owed steal answer or an empty pool; tests_finished => shutdown triggered; "
              "a worker with a successor can always step. Composition into 'no reachable stuck state' is searched by the stuck-state monitor: partial.", design="5/C02", technique=TECH),
@@ -25,7 +27,7 @@ CHECKS = {
              "announced next item = next test run, None only last, nothing withdrawn was started/announced, completeness at the marker, exact has-items flag. Tied to the real TestQueue/WorkerInteractor "
              "under a cooperative scheduler at lock-section granularity.", design="5/C05", technique=TECH),
  "C06": dict(text=SYS + "Proved over arbitrary strings: the three key functions on well-formed ids (and refutations for ids with '::' in parameters / ']' in group names: known findings); units are built in "
-             "collection order, sent whole in one command to one node, re-queued whole after a crash.", design="5/C06", technique=TECH),
+             "collection order, sent whole in one command to one node, re-queued whole after a crash; the worker's half (the hook writing '@group' into a marked test's id) is modelled and composed with the controller's key function (GroupMarkProofs.marked_key_is_group).", design="5/C06", technique=TECH),
  "C07": dict(text="Worker side proved for all interleavings (all-or-nothing, exact reply, order kept, nothing started is withdrawn); controller side proved for all scheduler states (one request outstanding, "
              "tail only, >=2 left, reply processing, dead victim cancels). " + SYS, design="5/C07", technique=TECH),
  "C08": dict(text=SYS + "Proved (all states): initial node gets run-all+shutdown and is booked everything; crash keeps the remainder other than the crashed test and blocks tests_finished; an equal-spec, "
